@@ -426,7 +426,9 @@ example : (chainOf (prebuildFlat { ees := [], classes := ["DOG"] }
     EXACTLY ONE R603 subtype row, as a count over the whole population: `(rows.filter (·.smtOf == some i)).length = 1`
     (first conjunct; the second restates it for the members of the outer block's R661 chain).
     `_partial`: `coreB` bodies (elif / else clauses — each with its own ACT_SMT and exactly one ACT_EL / ACT_E row — are
-    covered; `self` is outside the subset). -/
+    covered; so is `self` as the instance name of delete / relate / unrelate (+ using), as a returned value and as the
+    root of an attribute in an attribute assignment — the V_VAR / V_INT rows its look-up creates are no subtype rows of
+    a statement). -/
 theorem statement_subtype_unique_partial (fc : FCtx) (a : Block) (hc : coreB a = true) (hok : flatOk fc a = true) :
     (∀ (i b' : Nat) (p : Option Nat), (prebuildFlat fc a)[i]? = some (.smt b' p) → subCount (prebuildFlat fc a) i = 1) ∧
     (∀ i ∈ chainOf (prebuildFlat fc a) 0, subCount (prebuildFlat fc a) i = 1) := by
